@@ -50,8 +50,13 @@ def rule_rt3(A: Analysis, rep):
         rep.check(got.get(k) == v, "RT3", "%s value" % k, sp, "%s = %s" % (k, v), "%s is set to `%s` (expected `%s`)" % (k, got.get(k), v))
     dv = got.get("COND_DEPS")
     sep = A.prog.fold_fq("conductor.config.DEPS_ENV_PATH_SEPARATOR")
-    ok = dv in ("DEPS_ENV_PATH_SEPARATOR.join(map(str, self._deps_output_paths))", "DEPS_ENV_PATH_SEPARATOR.join((str(p) for p in self._deps_output_paths))",
-                "DEPS_ENV_PATH_SEPARATOR.join([str(p) for p in self._deps_output_paths])") and sep == ":"
+    from ..analysis import canon
+    try:
+        dv_c = norm(canon(ast.parse(dv, mode="eval").body)) if dv else None
+    except SyntaxError:
+        dv_c = None
+    # map(str, X), [str(p) for p in X] and (str(p) for p in X) are one canonical generator
+    ok = dv_c == norm(canon(ast.parse("DEPS_ENV_PATH_SEPARATOR.join(map(str, self._deps_output_paths))", mode="eval").body)) and sep == ":"
     rep.check(ok, "RT3", "COND_DEPS value", sp, "':'.join(str(p) for p in deps_output_paths), in order", "COND_DEPS is `%s` with separator %r" % (dv, sep))
     for c, want_v in (("OUTPUT_ENV_VARIABLE_NAME", "COND_OUT"), ("DEPS_ENV_VARIABLE_NAME", "COND_DEPS"), ("TASK_NAME_ENV_VARIABLE_NAME", "COND_NAME")):
         v = A.prog.fold_fq("conductor.config." + c)
@@ -179,7 +184,7 @@ def _serializer_ok(A, fi, iter_text, fmt_const) -> bool:
         if len(comp.generators) != 1 or comp.generators[0].ifs or norm(comp.generators[0].iter) != iter_text:
             return False
         tgt = comp.generators[0].target
-        elems.append((frozenset(), comp.elt, tgt))
+        elems.append((frozenset(), comp.elt, tgt, None))
     else:
         if not isinstance(src, ast.Name):
             return False
@@ -200,9 +205,9 @@ def _serializer_ok(A, fi, iter_text, fmt_const) -> bool:
             return False
         for a in apps:
             for c in A.path_guards(g, be, a, fi):
-                elems.append((c, a.ast.value.args[0], l.target))
+                elems.append((c, a.ast.value.args[0], l.target, (a, be)))
     got = set()
-    for (gd, el, tgt) in elems:
+    for (gd, el, tgt, site) in elems:
         if fmt_const is None:
             val = norm(tgt)
             x = el
@@ -216,8 +221,23 @@ def _serializer_ok(A, fi, iter_text, fmt_const) -> bool:
             if set(kw) != {"key", "value"} or norm(kw["key"]) != key:
                 return False
             x = kw["value"]
-        for (c, v) in _renderings(A, x, fi, val):
-            cc = frozenset(gd | c)
+        alts = [(frozenset(), x)]
+        if isinstance(x, ast.Name) and x.id != val and site is not None:
+            # the rendered text held in a local that the branches of the iteration assign: its reaching values
+            alts = []
+            for (c0, vt) in A.rvalues(fi, x, site[0].ast, g, start=site[1], depth=2, calls=True):
+                try:
+                    pe = ast.parse(vt, mode="eval").body
+                except SyntaxError:
+                    return False
+                for sub_ in ast.walk(pe):
+                    sub_._module = fi.module  # type: ignore[attr-defined]
+                    sub_._func = fi  # type: ignore[attr-defined]
+                alts.append((c0, pe))
+            gd = frozenset()       # the path condition is carried by the reaching values
+        for (c0, x_) in alts:
+          for (c, v) in _renderings(A, x_, fi, val):
+            cc = frozenset(gd | c | c0)
             got.add((frozenset(a for a in cc if a[0] in ("t(isinstance(%s, bool))" % val, "t(%s)" % val)), v))
     # merge: drop subsumed alternatives
     want = {(frozenset({("t(isinstance(%s, bool))" % val, True), ("t(%s)" % val, True)}), "'true'"),
